@@ -3,6 +3,7 @@ use vstd::std_specs::cmp::{OrdSpec, PartialOrdSpec};
 use core::cmp::Ordering;
 use std::ops::{Add, Sub};
 use std::cmp::max;
+use std::collections::BTreeSet;
 
 // [trusted:stand-in] ic_btc_types::BlockHash is `[u8; 32]` with derived equality; only equality is used here.
 #[derive(PartialEq, Eq, Clone, Copy, Structural, Debug)]
